@@ -39,6 +39,7 @@ type FuncContract struct {
 	Asserts  []*CallSite
 	Inline   bool
 	Trusted  bool
+	NoSafety bool // run-time safety obligations of the function body are assumed, only contract clauses are proved
 	Checked  bool // set once verified in this run with all obligations discharged
 	Tier     string
 	File     string
@@ -775,6 +776,10 @@ func (w *World) parseContractFile(pkgPath, file string) error {
 		case "trusted":
 			if cur != nil {
 				cur.Trusted = true
+			}
+		case "nosafety":
+			if cur != nil {
+				cur.NoSafety = true
 			}
 		default:
 			return fail(l.n, "unknown clause %q", word)
